@@ -302,6 +302,21 @@ def run(case: dict, *, count_only: bool = False) -> Obs:
             # still in SOCKET_OPENED is not probed: the guard cannot tell it from the first use.)
             conn = env.conns[-1] if env.conns else None
             stn = conn.connection_state.name if conn is not None else None
+            if act == "reuse_start" and stn == "INITIALIZED" and case.get("overlap_probe"):
+                # a second start_connection() while the first one is still resolving / connecting: the state cannot
+                # tell the two apart, but one object serves ONE connect attempt -- the overlapping call may fail any
+                # way it likes (and take the object down with it), it must not return as if it had connected too
+                env.log("reuse_probe", what="start_overlap", state=stn)
+
+                async def probe_overlap():
+                    try:
+                        await conn.start_connection()
+                    except BaseException:  # noqa: BLE001
+                        return
+                    obs.reuse.append(f"conn{len(env.conns) - 1}:INITIALIZED:start_overlap:returned")
+
+                env.spawn(f"reuse{idx}", probe_overlap())
+                return
             ok_probe = conn is not None and (
                 (act == "reuse_start" and stn != "INITIALIZED") or (act == "reuse_finish" and stn in ("HANDSHAKE_COMPLETE", "CONNECTED", "CLOSED"))
             )
